@@ -22,6 +22,7 @@ import (
 	"github.com/libp2p/go-libp2p-kad-dht/internal/vmc/kid"
 	"github.com/libp2p/go-libp2p-kad-dht/internal/vmc/sim"
 	"github.com/libp2p/go-libp2p-kad-dht/internal/vmc/vrand"
+	"github.com/libp2p/go-libp2p-kad-dht/internal/vmc/vsync"
 	pb "github.com/libp2p/go-libp2p-kad-dht/pb"
 	"github.com/libp2p/go-libp2p-kad-dht/provider/keystore"
 )
@@ -115,6 +116,13 @@ func c14pRun(x *vmc.X, cfg vmc.Cfg) {
 	self := kid.Peer("0110", 9)
 	s := vmc.NewSched(x)
 	s.Filter = func(string) bool { return false } // set-up runs through
+	// the window between a WaitGroup waiter's wake-up and its return is a scheduling point too
+	vsync.Hook = func(addr any, op string) {
+		if op == "wg-wake" {
+			s.Point("wg-wake")
+		}
+	}
+	defer func() { vsync.Hook = nil }()
 	e := &c14penv{s: s}
 	// two peers, r = 2: a single region, so that at most one goroutine ever waits for a worker
 	// (who wins when one Broadcast wakes several waiters of the external worker pool is decided
